@@ -31,3 +31,18 @@ prop("C01", [
         "<=2-cut segmentations for a sample of messages) and by state reproduction on replay"],
     bounds={"quick": "messages <= 150 bytes, compact covering corpus + every 3rd mutation",
             "thorough": "messages <= 420 bytes, full product corpus + all mutations, until the deadline"})
+
+prop("C03", [
+    {"name": "c03_robustness", "sources": ["c03_robustness.cc"], "flavour": "asan",
+     "args": {"quick": ["--L=4", "--Lv=3", "--Dt=3", "--timeout-ms=8000", "--deadline-s=170"],
+              "thorough": ["--L=5", "--Lv=4", "--Dt=4", "--timeout-ms=20000", "--deadline-s=1500"]}},
+],
+    rule="one case = a block of up to 512 inputs: (A) 34 parser modes x every string over a 12-symbol alphabet "
+         "(letters, digits, separators, CR, LF, NUL, 0xFF) up to length L, with and without a completing tail; "
+         "(B) two-point mutations of 12 base messages; (C) 9 numeric fields x 25 boundary values; (D) 22 header "
+         "names x every value over a 13-character alphabet up to length Lv and over per-header token alphabets up "
+         "to depth Dt, embedded in a real message; each input is delivered one-shot, split at its seams and byte by "
+         "byte to the real parser under ASan+UBSan, an allocation watcher (bound 4*maxRequestSize+64KiB) and the "
+         "watchdog; transitions = parser feed+parse steps; non-trivial = distinct inputs with a non-empty garbage part",
+    assumptions=COMMON_ASSUME,
+    bounds={"quick": "L=4, Lv=3, Dt=3", "thorough": "L=5, Lv=4, Dt=4 (until the deadline)"})
